@@ -48,4 +48,31 @@ impl CodegenResult { pub fn saw_bindgen_union(&mut self) ensures final(self).saw
 // [root::]__BindgenUnionField<#ty>
 #[verifier::external_body] pub fn q_union_field_marker(root: bool, ty: &Tok) -> (r: Tok) ensures ty_size(r) == 0, ty_align(r) == 1 { unimplemented!() }
 
+// ---- the per-member test of is_rust_union (the closure of `.iter().all(..)`): Copy-derivability of the member's DECLARED type
+#[derive(Clone, Copy, PartialEq, Eq, Structural)]
+pub struct ItemId(pub usize);
+#[derive(Clone, Copy, PartialEq, Eq, Structural)]
+pub struct TypeId(pub ItemId);
+pub uninterp spec fn s_can_copy(ctx: &BindgenContext, id: ItemId) -> bool;
+impl TypeId { #[verifier::external_body] pub fn can_derive_copy(&self, ctx: &BindgenContext) -> (r: bool) ensures r == s_can_copy(ctx, self.0) { unimplemented!() } }
+impl ItemId { #[verifier::external_body] pub fn can_derive_copy(&self, ctx: &BindgenContext) -> (r: bool) ensures r == s_can_copy(ctx, *self) { unimplemented!() } }
+pub struct FieldData { pub ty: TypeId }
+impl FieldData { pub fn ty(&self) -> (r: TypeId) ensures r == self.ty { self.ty } }
+#[verifier::external_body] pub struct BitfieldUnit { _p: core::marker::PhantomData<()> }
+pub enum Field { DataMember(FieldData), Bitfields(BitfieldUnit) }
+// ItemResolver: where an id ends up behind references / aliases is an uninterpreted function of the IR
+pub struct ItemResolver { pub id: ItemId, pub refs: bool, pub aliases: bool }
+impl TypeId { pub fn into_resolver(self) -> (r: ItemResolver) ensures r == (ItemResolver { id: self.0, refs: false, aliases: false }) { ItemResolver { id: self.0, refs: false, aliases: false } } }
+pub uninterp spec fn s_resolved(ctx: &BindgenContext, id: ItemId, refs: bool, aliases: bool) -> ItemId;
+#[verifier::external_body] pub struct Item { _p: core::marker::PhantomData<()> }
+impl Item {
+    pub uninterp spec fn s_id(&self) -> ItemId;
+    #[verifier::external_body] pub fn id(&self) -> (r: ItemId) ensures r == self.s_id() { unimplemented!() }
+}
+impl ItemResolver {
+    pub fn through_type_refs(self) -> (r: ItemResolver) ensures r == (ItemResolver { refs: true, ..self }) { ItemResolver { id: self.id, refs: true, aliases: self.aliases } }
+    pub fn through_type_aliases(self) -> (r: ItemResolver) ensures r == (ItemResolver { aliases: true, ..self }) { ItemResolver { id: self.id, refs: self.refs, aliases: true } }
+    #[verifier::external_body] pub fn resolve<'a>(self, ctx: &'a BindgenContext) -> (r: &'a Item) ensures r.s_id() == s_resolved(ctx, self.id, self.refs, self.aliases) { unimplemented!() }
+}
+
 } // verus!
